@@ -37,9 +37,9 @@ KNOWN = [
     ("C20", "codec-library/inflate64-decoder-memory",
      "inflate64's Inflater alone (no py7zr code) retains about 0.7 MiB per MiB of output (600 MiB out -> 407 MiB RSS rise): extracting or testing Deflate64 members above roughly 1 GiB "
      "exceeds the budget although py7zr takes the output in bounded pieces. Third-party native code."),
-    ("C05", "interpreter-died/crash:SIGABRT/coder-030401-props-*ffffffff",
+    ("C05", "codec-library/pyppmd-alloc-failure-abort",
      "a PPMd coder whose 5-byte property declares a 4 GiB model (mem=0xFFFFFFFF): when that allocation fails (address-space limit, little free memory) pyppmd aborts the process "
-     "('double free or corruption') instead of raising MemoryError. Input: reference-written archive with coder 030401 and props ffffffffff / 06ffffffff. Third-party native code."),
+     "('double free or corruption') instead of raising MemoryError. Inputs: reference-written archive with coder 030401 and props ffffffffff / 06ffffffff; structure-aware mutation of the top byte of the PPMd property (thorough tier). The classifier takes the (order, mem) the case's inputs declare and builds a Ppmd7Decoder with them in a child process whose address-space limit is below the declared model; only when the child is aborted is the crash filed under this key. Third-party native code."),
     ("C05", "codec-library/pyppmd-decoder-deadlock",
      "a PPMd folder whose header declares more output than the stream holds (hostile unpack size, damaged or truncated stream): py7zr has to keep asking the decoder, and pyppmd 1.1.1's "
      "threaded Ppmd7Decoder, asked to decode past the true end, starts worker threads it never joins (one leaked thread per call, then MemoryError) and after some hundreds of such archives "
